@@ -22,3 +22,512 @@ package p9
 //@   lemma[C20] @qidtype-dir forall(m, FileMode, validType(m) ==> (FileMode.QIDType(m) == TypeDir <==> m&FileModeMask == ModeDirectory))
 //@   lemma[C20] @qidtype-symlink forall(m, FileMode, validType(m) ==> (FileMode.QIDType(m) == TypeSymlink <==> m&FileModeMask == ModeSymlink))
 //@   lemma[C20] @qidtype-regular forall(m, FileMode, m&FileModeMask == ModeRegular ==> FileMode.QIDType(m) == TypeRegular)
+
+// ---- C11: chunked I/O --------------------------------------------------------
+//
+// fn is abstract: it processes a prefix of the chunk it is given (a peer /
+// backend that is honest about counts: 0 <= n <= len(q); stated assumption).
+// Ghost state accumulated per call of fn: $sum = sum of the counts returned,
+// $allfull = every call so far returned (len(q), nil), $lasterr = the error of
+// the last call.
+//@ fparam chunk.fn
+//@   params q, off
+//@   results n, err
+//@   ensures 0 <= n && n <= len(q)
+//@   ghost set $allfull:bool = ghost("$allfull", bool) && n == len(q) && err == nil
+//@   ghost set $sum:int = ghost("$sum", int) + n
+//@   ghost set $lasterr:error = err
+//
+//@ func chunk
+//@   requires[C11] chunkSize >= 1
+//@   requires[C11] ghost("$sum", int) == 0 && ghost("$allfull", bool) && ghost("$lasterr", error) == nil && ncalls("fn") == 0
+//@   modifies $sum, $allfull, $lasterr, $ncalls, $n.fn
+//@   at fn requires[C11] @offset-follows-data arg1 == offset0 + int64(ghost("$sum", int))
+//@   at fn requires[C11] @chunk-is-next-window arr(arg0) == arr(p) && off(arg0) == off(p) + ghost("$sum", int) && len(arg0) == min(int(chunkSize), len(p) - ghost("$sum", int))
+//@   at fn requires[C11] @within-payload-limit len(arg0) <= int(chunkSize)
+//@   at fn requires[C11] @stops-at-first-short-or-failed ghost("$allfull", bool)
+//@   ensures[C11] @count-is-sum result0 == ghost("$sum", int)
+//@   ensures[C11] @error-is-last result1 == ghost("$lasterr", error)
+//@   ensures[C11] @all-accepted ghost("$allfull", bool) ==> result0 == len(p) && result1 == nil
+//@   ensures[C11] @at-least-one-call ncalls("fn") >= 1
+//@   ensures[C11] @empty-one-call len(p) == 0 ==> ncalls("fn") == 1
+//@   ensures[C11] @bounded 0 <= result0 && result0 <= len(p)
+//@   nopanic
+//@   loop 0 invariant[C11] 0 <= total && total <= len(p) && len(p) > 0
+//@   loop 0 invariant[C11] total == ghost("$sum", int) && offset == offset0 + int64(total)
+//@   loop 0 invariant[C11] ghost("$allfull", bool) && ghost("$lasterr", error) == nil
+//@   loop 0 invariant[C11] total > 0 ==> ncalls("fn") >= 1
+//@   loop 0 invariant[C11] ncalls("fn") >= 0
+//@   loop 0 decreases[C11] len(p) - total
+
+// =============================================================================
+// Server side: fid table, reference counts, path-tree locks, handlers.
+// =============================================================================
+//
+// Ghost state (erased; none of it exists in the executable code):
+//   held(mu)      hold count of this invocation on mutex mu: 0 none, n>0 read
+//                 holds, -1 write hold
+//   ncalls(...)   number of calls made through the File / Attacher interfaces
+//   bound(x)      x was loaded from the file field of a fidRef; refof(x) is
+//                 that fidRef
+//
+//@ define safe(n string) bool = n != "" && !contains(n, "/") && n != "." && n != ".."
+//@ define errIs(e error, no linux.Errno) bool = e == box(no)
+//
+// Lock classes of the File interface (p9/file.go), as ghost lock states of the
+// fidRef r whose file is the receiver.
+//@ define readLocked(r *fidRef) bool = held(r.server.renameMu) == -1 || (held(r.server.renameMu) >= 1 && held(r.pathNode.opMu) != 0)
+//@ define writeLocked(r *fidRef) bool = held(r.server.renameMu) == -1 || (held(r.server.renameMu) >= 1 && held(r.pathNode.opMu) == -1)
+//@ define globalLocked(r *fidRef) bool = held(r.server.renameMu) == -1
+//@ define fenced(r *fidRef) bool = r.pathNode.deleted != 0
+
+//@ inline (*fidRef).isDeleted, (*fidRef).hasParent, (*fidRef).maybeParent, (*fidRef).IncRef, CanOpen, (OpenFlags).Mode
+
+// ---- C09 ---------------------------------------------------------------------
+//@ func checkSafeName
+//@   ensures[C09,C04] @nil-iff-safe (result == nil) <==> safe(name)
+//@   ensures[C09,C04] @einval result != nil ==> errIs(result, linux.EINVAL)
+//@   nopanic
+
+// ---- lock wrappers (C07, C15, C16) -------------------------------------------
+//@ func (*fidRef).safelyRead
+//@   requires[C15,C16] held(f.server.renameMu) == 0 && held(f.pathNode.opMu) == 0
+//@   wrapper fn during rlock(f.server.renameMu); rlock(f.pathNode.opMu)
+//@ func (*fidRef).safelyWrite
+//@   requires[C15,C16] held(f.server.renameMu) == 0 && held(f.pathNode.opMu) == 0
+//@   wrapper fn during rlock(f.server.renameMu); lock(f.pathNode.opMu)
+//@ func (*fidRef).safelyGlobal
+//@   requires[C15,C16] held(f.server.renameMu) == 0
+//@   wrapper fn during lock(f.server.renameMu)
+
+// ---- fid table ----------------------------------------------------------------
+//@ func (*connState).LookupFID
+//@   requires[C15,C16] held(cs.fidMu) == 0
+//@   modifies type:fidRef.refs
+//@   ensures[C04] @found-iff-bound result1 == old(has(cs.fids, fid))
+//@   ensures[C04] @returns-binding result1 ==> result0 == cs.fids[fid] && result0 != nil
+//@   ensures[C04] @nil-when-unbound !result1 ==> result0 == nil
+//@   requires[C04] @table-has-no-nil Ifid(cs)
+//@   nopanic
+
+//@ define Ifid(cs *connState) bool = forall(k, fid, has(cs.fids, k) ==> cs.fids[k] != nil)
+//@ define sameFids(cs *connState) bool = forall(k, fid, has(cs.fids, k) == old(has(cs.fids, k)) && cs.fids[k] == old(cs.fids[k]))
+//@ define isErr(m message, no linux.Errno) bool = typeis(m, *rlerror) && unbox(m, *rlerror).Error == uint32(no)
+//@ define nocalls() bool = ncalls() == old(ncalls())
+// every name registered in the path tree is a safe path component
+//@ define InamesSafe() bool = forall(pn, *pathNode, forall(r, *fidRef, has(pn.childRefNames, r) ==> safe(pn.childRefNames[r])))
+
+//@ func (*connState).InsertFID
+//@   requires[C15,C16] held(cs.fidMu) == 0
+//@   requires[C04] newRef != nil
+//@   requires[C04] Ifid(cs)
+//@   ensures[C04] Ifid(cs)
+//@   requires[C09] InamesSafe()
+//@   ensures[C09] InamesSafe()
+//@   panic_ensures[C09] InamesSafe()
+//@   ensures[C04,C03] nocalls()
+//@   modifies mapof(cs.fids), type:fidRef.refs, maps(map[*fidRef]string), maps(map[string]map[*fidRef]struct{}), maps(map[*fidRef]struct{}), $n.File.Close
+//@   ensures[C04] @binds has(cs.fids, fid) && cs.fids[fid] == newRef
+//@   ensures[C04] @others-unchanged forall(k, fid, k != fid ==> has(cs.fids, k) == old(has(cs.fids, k)) && cs.fids[k] == old(cs.fids[k]))
+//@   ensures[C15,C16] samelocks()
+//@   panic_ensures[C15,C16] samelocks()
+//@   maypanic
+//
+//@ func (*connState).DeleteFID
+//@   requires[C15,C16] held(cs.fidMu) == 0
+//@   requires[C04] Ifid(cs)
+//@   ensures[C04] Ifid(cs)
+//@   panic_ensures[C04] Ifid(cs)
+//@   ensures[C04,C03] nocalls()
+//@   requires[C09] InamesSafe()
+//@   ensures[C09] InamesSafe()
+//@   panic_ensures[C09] InamesSafe()
+//@   modifies mapof(cs.fids), type:fidRef.refs, maps(map[*fidRef]string), maps(map[string]map[*fidRef]struct{}), maps(map[*fidRef]struct{}), $n.File.Close
+//@   ensures[C04] @unbinds !has(cs.fids, fid)
+//@   ensures[C04] @others-unchanged forall(k, fid, k != fid ==> has(cs.fids, k) == old(has(cs.fids, k)) && cs.fids[k] == old(cs.fids[k]))
+//@   ensures[C04] @ebadf-iff-unbound !old(has(cs.fids, fid)) ==> errIs(result, linux.EBADF)
+//@   ensures[C15,C16] samelocks()
+//@   panic_ensures[C15,C16] samelocks()
+//@   panic_ensures[C04,C15] @unbinds-on-panic !has(cs.fids, fid)
+//@   maypanic
+
+// DecRef: drops one reference; at zero closes the file (backend call, may
+// fail or panic), unregisters from the parent's path node and drops the
+// parent reference. It never touches a fid table, the opened/mode/file fields
+// or the deleted marks, and leaves the lock state as it found it.
+//@ func (*fidRef).DecRef
+//@   abstract
+//@   requires[C09] InamesSafe()
+//@   ensures[C09] InamesSafe()
+//@   panic_ensures[C09] InamesSafe()
+//@   modifies type:fidRef.refs, maps(map[*fidRef]string), maps(map[string]map[*fidRef]struct{}), maps(map[*fidRef]struct{}), $n.File.Close
+//@   maypanic
+
+// ---- File interface: what the server must guarantee at every call -------------
+//
+// C07: lock class of the method, held on the path node of the fidRef the
+//      receiver belongs to. C08: path-dependent calls never reach a fenced
+//      (deleted) path. C09: every path component is safe.
+// Files that are not (yet) the file of any fidRef (bound(recv) false: fresh
+// results of Attach/Walk/Create inside the handler that obtained them) are
+// private to that handler invocation.
+
+//@ interface File.Walk
+//@   params names
+//@   requires[C07] bound(recv) ==> readLocked(refof(recv))
+//@   requires[C08] bound(recv) && len(names) > 0 ==> !fenced(refof(recv))
+//@   requires[C09] @one-component len(names) <= 1
+//@   requires[C09] @safe-name len(names) == 1 ==> safe(names[0])
+//@   ghost set $lasterr:error = result2
+//@   maypanic
+//@ interface File.WalkGetAttr
+//@   params names
+//@   requires[C07] bound(recv) ==> readLocked(refof(recv))
+//@   requires[C08] bound(recv) && len(names) > 0 ==> !fenced(refof(recv))
+//@   requires[C09] @one-component len(names) <= 1
+//@   requires[C09] @safe-name len(names) == 1 ==> safe(names[0])
+//@   ghost set $lasterr:error = result4
+//@   maypanic
+//@ interface File.StatFS
+//@   ghost set $lasterr:error = result1
+//@   maypanic
+//@ interface File.GetAttr
+//@   requires[C07] bound(recv) ==> readLocked(refof(recv))
+//@   ghost set $lasterr:error = result3
+//@   maypanic
+//@ interface File.SetAttr
+//@   requires[C07] bound(recv) ==> writeLocked(refof(recv))
+//@   requires[C08] bound(recv) ==> !fenced(refof(recv))
+//@   ghost set $lasterr:error = result0
+//@   maypanic
+//@ interface File.Close
+//@   maypanic
+//@ interface File.Open
+//@   requires[C07] bound(recv) ==> readLocked(refof(recv))
+//@   requires[C07] @open-once bound(recv) ==> !refof(recv).opened
+//@   requires[C08] bound(recv) ==> !fenced(refof(recv))
+//@   ghost set $lasterr:error = result2
+//@   maypanic
+//@ interface File.ReadAt
+//@   requires[C07] bound(recv) ==> readLocked(refof(recv))
+//@   modifies elems(p)
+//@   ensures[C13,C18] (0 <= result0 && result0 <= len(p)) || result1 != nil
+//@   ghost set $lasterr:error = result1
+//@   ghost set $ret.n:int = result0
+//@   maypanic
+//@ interface File.WriteAt
+//@   requires[C07] bound(recv) ==> readLocked(refof(recv))
+//@   ghost set $lasterr:error = result1
+//@   ghost set $ret.n:int = result0
+//@   maypanic
+//@ interface File.SetXattr
+//@   ghost set $lasterr:error = result0
+//@   maypanic
+//@ interface File.GetXattr
+//@   requires[C08] bound(recv) ==> !fenced(refof(recv))
+//@   ghost set $lasterr:error = result1
+//@   maypanic
+//@ interface File.ListXattrs
+//@   requires[C08] bound(recv) ==> !fenced(refof(recv))
+//@   ghost set $lasterr:error = result1
+//@   maypanic
+//@ interface File.RemoveXattr
+//@   ghost set $lasterr:error = result0
+//@   maypanic
+//@ interface File.FSync
+//@   requires[C07] bound(recv) ==> readLocked(refof(recv))
+//@   ghost set $lasterr:error = result0
+//@   maypanic
+//@ interface File.Lock
+//@   ghost set $lasterr:error = result1
+//@   maypanic
+//@ interface File.Create
+//@   requires[C07] bound(recv) ==> writeLocked(refof(recv))
+//@   requires[C08] bound(recv) ==> !fenced(refof(recv))
+//@   requires[C09] safe(name)
+//@   ghost set $lasterr:error = result3
+//@   ghost set $ret.File:File = result0
+//@   maypanic
+//@ interface File.Mkdir
+//@   requires[C07] bound(recv) ==> writeLocked(refof(recv))
+//@   requires[C08] bound(recv) ==> !fenced(refof(recv))
+//@   requires[C09] safe(name)
+//@   ghost set $lasterr:error = result1
+//@   ghost set $ret.QID:QID = result0
+//@   maypanic
+//@ interface File.Symlink
+//@   requires[C07] bound(recv) ==> writeLocked(refof(recv))
+//@   requires[C08] bound(recv) ==> !fenced(refof(recv))
+//@   requires[C09] safe(newName)
+//@   ghost set $lasterr:error = result1
+//@   ghost set $ret.QID:QID = result0
+//@   maypanic
+//@ interface File.Link
+//@   requires[C07] bound(recv) ==> writeLocked(refof(recv))
+//@   requires[C08] @dir-not-fenced bound(recv) ==> !fenced(refof(recv))
+//@   requires[C08] @target-not-fenced bound(target) ==> !fenced(refof(target))
+//@   requires[C09] safe(newName)
+//@   ghost set $lasterr:error = result0
+//@   maypanic
+//@ interface File.Mknod
+//@   requires[C07] bound(recv) ==> writeLocked(refof(recv))
+//@   requires[C08] bound(recv) ==> !fenced(refof(recv))
+//@   requires[C09] safe(name)
+//@   ghost set $lasterr:error = result1
+//@   ghost set $ret.QID:QID = result0
+//@   maypanic
+//@ interface File.RenameAt
+//@   requires[C07] bound(recv) ==> globalLocked(refof(recv))
+//@   requires[C08] @olddir-not-fenced bound(recv) ==> !fenced(refof(recv))
+//@   requires[C08] @newdir-not-fenced bound(newDir) ==> !fenced(refof(newDir))
+//@   requires[C09] @old-name safe(oldName)
+//@   requires[C09] @new-name safe(newName)
+//@   ghost set $lasterr:error = result0
+//@   maypanic
+//@ interface File.UnlinkAt
+//@   requires[C07] @dir-write-locked bound(recv) ==> writeLocked(refof(recv))
+//@   requires[C07] @entry-locked bound(recv) ==> globalLocked(refof(recv)) || (has(refof(recv).pathNode.childNodes, name) && held(refof(recv).pathNode.childNodes[name].opMu) == -1)
+//@   requires[C08] bound(recv) ==> !fenced(refof(recv))
+//@   requires[C09] safe(name)
+//@   ghost set $lasterr:error = result0
+//@   maypanic
+//@ interface File.Readdir
+//@   requires[C07] bound(recv) ==> readLocked(refof(recv))
+//@   requires[C08] bound(recv) ==> !fenced(refof(recv))
+//@   ghost set $lasterr:error = result1
+//@   maypanic
+//@ interface File.Readlink
+//@   requires[C07] bound(recv) ==> readLocked(refof(recv))
+//@   requires[C08] bound(recv) ==> !fenced(refof(recv))
+//@   ghost set $lasterr:error = result1
+//@   maypanic
+//@ interface File.Renamed
+//@   requires[C07] bound(recv) ==> globalLocked(refof(recv))
+//@   maypanic
+//@ interface Attacher.Attach
+//@   maypanic
+
+// ---- path tree (C08, C16): loop-free operations ------------------------------
+//@ func (*pathNode).pathNodeFor
+//@   requires[C15,C16] held(p.childMu) == 0
+//@   modifies mapof(p.childNodes), $allocs
+//@   ensures[C07,C08] @registered has(p.childNodes, name) && result == p.childNodes[name] && result != nil
+//@   ensures[C08] @others-unchanged forall(k, string, k != name ==> has(p.childNodes, k) == old(has(p.childNodes, k)) && p.childNodes[k] == old(p.childNodes[k]))
+//@   ensures[C08] @existing-kept old(has(p.childNodes, name)) ==> result == old(p.childNodes[name])
+//@   requires[C08] @no-nil-node forall(k, string, has(p.childNodes, k) ==> p.childNodes[k] != nil)
+//@   nopanic
+
+// ---- handlers -----------------------------------------------------------------
+//
+// Ghost results of the last backend call: $lasterr (its error), so that a
+// handler's reply can be related to what the backend returned.
+//@ func newErr
+//@   fresh
+//@   ensures[C03,C04,C15] result != nil && result.Error == uint32(errno(err))
+//@   ensures[C03,C04,C15] typeis(err, linux.Errno) ==> result.Error == uint32(unbox(err, linux.Errno))
+//@   nopanic
+
+//@ group handlerBase
+//@   requires[C15,C16] nolocks()
+//@   requires[C09] InamesSafe()
+//@   ensures[C09] @names-stay-safe InamesSafe()
+//@   requires[C04] Ifid(cs)
+//@   modifies *
+//@   ensures[C15] @locks-released nolocks()
+//@   panic_ensures[C15] @locks-released-on-panic nolocks()
+//@   ensures[C04] @table-invariant Ifid(cs)
+
+// directory operations that never change the fid table
+//@ group dirOpRows
+//@   ensures[C04,C15] @fid-table-unchanged sameFids(cs)
+//@   panic_ensures[C04,C15] @fid-table-unchanged-on-panic sameFids(cs)
+
+//@ func (*tmkdir).do
+//@   use handlerBase dirOpRows
+//@   ensures[C09,C04] @unsafe-name-rejected !safe(old(t.Name)) ==> errIs(result1, linux.EINVAL) && nocalls()
+//@   ensures[C04] @unbound-fid safe(old(t.Name)) && !old(has(cs.fids, t.Directory)) ==> errIs(result1, linux.EBADF) && nocalls()
+//@   ensures[C04] @opened-dir-refused old(has(cs.fids, t.Directory)) && old(cs.fids[t.Directory].opened) ==> result1 != nil && nocalls()
+//@   ensures[C04] @not-a-dir-refused old(has(cs.fids, t.Directory)) && !FileMode.IsDir(old(cs.fids[t.Directory].mode)) ==> result1 != nil && nocalls()
+//@   ensures[C08] @fenced-dir-refused old(has(cs.fids, t.Directory)) && old(fenced(cs.fids[t.Directory])) ==> errIs(result1, linux.EINVAL) && nocalls()
+//@   at File.Mkdir requires[C03] @forwards recv == old(cs.fids[t.Directory]).file && arg0 == old(t.Name) && arg1 == old(t.Permissions) && arg2 == uid && arg3 == old(t.GID)
+//@   ensures[C03] @one-backend-call result1 == nil ==> ncalls("File.Mkdir") == old(ncalls("File.Mkdir")) + 1 && ncalls() == old(ncalls()) + 1
+//@   ensures[C03,C15] @error-or-result ncalls() > old(ncalls()) ==> result1 == ghost("$lasterr", error)
+//@   ensures[C03] @returns-backend-qid result1 == nil ==> result0 != nil && result0.QID == ghost("$ret.QID", QID)
+
+//@ func (*tmkdir).handle
+//@   use handlerBase dirOpRows
+//@   ensures[C06] @reply-type typeis(result, *rmkdir) || typeis(result, *rlerror)
+//@   ensures[C09] @unsafe-name-einval !safe(old(t.Name)) ==> isErr(result, linux.EINVAL) && nocalls()
+//@   ensures[C04] @unbound-fid-ebadf safe(old(t.Name)) && !old(has(cs.fids, t.Directory)) ==> isErr(result, linux.EBADF) && nocalls()
+//@   ensures[C15] @backend-error-reported ncalls() > old(ncalls()) && ghost("$lasterr", error) != nil ==> isErr(result, errno(ghost("$lasterr", error)))
+
+//@ func (*tsymlink).do
+//@   use handlerBase dirOpRows
+//@   ensures[C09,C04] @unsafe-name-rejected !safe(old(t.Name)) ==> errIs(result1, linux.EINVAL) && nocalls()
+//@   ensures[C04] @unbound-fid safe(old(t.Name)) && !old(has(cs.fids, t.Directory)) ==> errIs(result1, linux.EBADF) && nocalls()
+//@   ensures[C04] @opened-dir-refused old(has(cs.fids, t.Directory)) && old(cs.fids[t.Directory].opened) ==> result1 != nil && nocalls()
+//@   ensures[C04] @not-a-dir-refused old(has(cs.fids, t.Directory)) && !FileMode.IsDir(old(cs.fids[t.Directory].mode)) ==> result1 != nil && nocalls()
+//@   ensures[C08] @fenced-dir-refused old(has(cs.fids, t.Directory)) && old(fenced(cs.fids[t.Directory])) ==> errIs(result1, linux.EINVAL) && nocalls()
+//@   at File.Symlink requires[C03] @forwards recv == old(cs.fids[t.Directory]).file && arg0 == old(t.Target) && arg1 == old(t.Name) && arg2 == uid && arg3 == old(t.GID)
+//@   ensures[C03] @one-backend-call result1 == nil ==> ncalls("File.Symlink") == old(ncalls("File.Symlink")) + 1 && ncalls() == old(ncalls()) + 1
+//@   ensures[C03,C15] @error-or-result ncalls() > old(ncalls()) ==> result1 == ghost("$lasterr", error)
+//@   ensures[C03] @returns-backend-qid result1 == nil ==> result0 != nil && result0.QID == ghost("$ret.QID", QID)
+//@ func (*tsymlink).handle
+//@   use handlerBase dirOpRows
+//@   ensures[C06] @reply-type typeis(result, *rsymlink) || typeis(result, *rlerror)
+//@   ensures[C09] @unsafe-name-einval !safe(old(t.Name)) ==> isErr(result, linux.EINVAL) && nocalls()
+//@   ensures[C04] @unbound-fid-ebadf safe(old(t.Name)) && !old(has(cs.fids, t.Directory)) ==> isErr(result, linux.EBADF) && nocalls()
+//@   ensures[C15] @backend-error-reported ncalls() > old(ncalls()) && ghost("$lasterr", error) != nil ==> isErr(result, errno(ghost("$lasterr", error)))
+
+//@ func (*tmknod).do
+//@   use handlerBase dirOpRows
+//@   ensures[C09,C04] @unsafe-name-rejected !safe(old(t.Name)) ==> errIs(result1, linux.EINVAL) && nocalls()
+//@   ensures[C04] @unbound-fid safe(old(t.Name)) && !old(has(cs.fids, t.Directory)) ==> errIs(result1, linux.EBADF) && nocalls()
+//@   ensures[C04] @opened-dir-refused old(has(cs.fids, t.Directory)) && old(cs.fids[t.Directory].opened) ==> result1 != nil && nocalls()
+//@   ensures[C04] @not-a-dir-refused old(has(cs.fids, t.Directory)) && !FileMode.IsDir(old(cs.fids[t.Directory].mode)) ==> result1 != nil && nocalls()
+//@   ensures[C08] @fenced-dir-refused old(has(cs.fids, t.Directory)) && old(fenced(cs.fids[t.Directory])) ==> errIs(result1, linux.EINVAL) && nocalls()
+//@   at File.Mknod requires[C03] @forwards recv == old(cs.fids[t.Directory]).file && arg0 == old(t.Name) && arg1 == old(t.Mode) && arg2 == old(t.Major) && arg3 == old(t.Minor) && arg4 == uid && arg5 == old(t.GID)
+//@   ensures[C03] @one-backend-call result1 == nil ==> ncalls("File.Mknod") == old(ncalls("File.Mknod")) + 1 && ncalls() == old(ncalls()) + 1
+//@   ensures[C03,C15] @error-or-result ncalls() > old(ncalls()) ==> result1 == ghost("$lasterr", error)
+//@   ensures[C03] @returns-backend-qid result1 == nil ==> result0 != nil && result0.QID == ghost("$ret.QID", QID)
+//@ func (*tmknod).handle
+//@   use handlerBase dirOpRows
+//@   ensures[C06] @reply-type typeis(result, *rmknod) || typeis(result, *rlerror)
+//@   ensures[C09] @unsafe-name-einval !safe(old(t.Name)) ==> isErr(result, linux.EINVAL) && nocalls()
+//@   ensures[C04] @unbound-fid-ebadf safe(old(t.Name)) && !old(has(cs.fids, t.Directory)) ==> isErr(result, linux.EBADF) && nocalls()
+//@   ensures[C15] @backend-error-reported ncalls() > old(ncalls()) && ghost("$lasterr", error) != nil ==> isErr(result, errno(ghost("$lasterr", error)))
+
+//@ func (*tlink).handle
+//@   use handlerBase dirOpRows
+//@   ensures[C06] @reply-type typeis(result, *rlink) || typeis(result, *rlerror)
+//@   ensures[C09] @unsafe-name-einval !safe(old(t.Name)) ==> isErr(result, linux.EINVAL) && nocalls()
+//@   ensures[C04] @unbound-dir-ebadf safe(old(t.Name)) && !old(has(cs.fids, t.Directory)) ==> isErr(result, linux.EBADF) && nocalls()
+//@   ensures[C04] @unbound-target-ebadf safe(old(t.Name)) && !old(has(cs.fids, t.Target)) ==> isErr(result, linux.EBADF) && nocalls()
+//@   ensures[C04] @opened-dir-refused old(has(cs.fids, t.Directory)) && old(cs.fids[t.Directory].opened) ==> typeis(result, *rlerror) && nocalls()
+//@   ensures[C08] @fenced-dir-refused old(has(cs.fids, t.Directory)) && old(has(cs.fids, t.Target)) && safe(old(t.Name)) && old(fenced(cs.fids[t.Directory])) ==> isErr(result, linux.EINVAL) && nocalls()
+//@   at File.Link requires[C03] @forwards recv == old(cs.fids[t.Directory]).file && arg0 == old(cs.fids[t.Target]).file && arg1 == old(t.Name)
+//@   ensures[C15] @backend-error-reported ncalls() > old(ncalls()) && ghost("$lasterr", error) != nil ==> isErr(result, errno(ghost("$lasterr", error)))
+//@   ensures[C03] @success-reply ncalls() > old(ncalls()) && ghost("$lasterr", error) == nil ==> typeis(result, *rlink)
+
+//@ func (*tgetattr).handle
+//@   use handlerBase dirOpRows
+//@   ensures[C06] @reply-type typeis(result, *rgetattr) || typeis(result, *rlerror)
+//@   ensures[C04] @unbound-fid-ebadf !old(has(cs.fids, t.fid)) ==> isErr(result, linux.EBADF) && nocalls()
+//@   at File.GetAttr requires[C03] @forwards recv == old(cs.fids[t.fid]).file && arg0 == old(t.AttrMask)
+//@   ensures[C15] @backend-error-reported ncalls() > old(ncalls()) && ghost("$lasterr", error) != nil ==> isErr(result, errno(ghost("$lasterr", error)))
+//@   ensures[C08] @getattr-not-fenced old(has(cs.fids, t.fid)) ==> ncalls("File.GetAttr") == old(ncalls("File.GetAttr")) + 1
+
+//@ func (*tsetattr).handle
+//@   use handlerBase dirOpRows
+//@   ensures[C06] @reply-type typeis(result, *rsetattr) || typeis(result, *rlerror)
+//@   ensures[C04] @unbound-fid-ebadf !old(has(cs.fids, t.fid)) ==> isErr(result, linux.EBADF) && nocalls()
+//@   ensures[C08] @fenced-refused old(has(cs.fids, t.fid)) && old(fenced(cs.fids[t.fid])) ==> isErr(result, linux.EINVAL) && nocalls()
+//@   at File.SetAttr requires[C03] @forwards recv == old(cs.fids[t.fid]).file && arg0 == old(t.Valid) && arg1 == old(t.SetAttr)
+//@   ensures[C15] @backend-error-reported ncalls() > old(ncalls()) && ghost("$lasterr", error) != nil ==> isErr(result, errno(ghost("$lasterr", error)))
+
+//@ func (*treadlink).handle
+//@   use handlerBase dirOpRows
+//@   ensures[C06] @reply-type typeis(result, *rreadlink) || typeis(result, *rlerror)
+//@   ensures[C04] @unbound-fid-ebadf !old(has(cs.fids, t.fid)) ==> isErr(result, linux.EBADF) && nocalls()
+//@   ensures[C08] @fenced-refused old(has(cs.fids, t.fid)) && old(fenced(cs.fids[t.fid])) ==> isErr(result, linux.EINVAL) && nocalls()
+//@   ensures[C04] @not-a-symlink-refused old(has(cs.fids, t.fid)) && !FileMode.IsSymlink(old(cs.fids[t.fid].mode)) ==> isErr(result, linux.EINVAL) && nocalls()
+//@   at File.Readlink requires[C03] @forwards recv == old(cs.fids[t.fid]).file
+//@   ensures[C15] @backend-error-reported ncalls() > old(ncalls()) && ghost("$lasterr", error) != nil ==> isErr(result, errno(ghost("$lasterr", error)))
+
+//@ func (*tstatfs).handle
+//@   use handlerBase dirOpRows
+//@   ensures[C06] @reply-type typeis(result, *rstatfs) || typeis(result, *rlerror)
+//@   ensures[C04] @unbound-fid-ebadf !old(has(cs.fids, t.fid)) ==> isErr(result, linux.EBADF) && nocalls()
+//@   at File.StatFS requires[C03] @forwards recv == old(cs.fids[t.fid]).file
+//@   ensures[C15] @backend-error-reported ncalls() > old(ncalls()) && ghost("$lasterr", error) != nil ==> isErr(result, errno(ghost("$lasterr", error)))
+
+//@ func (*tlock).handle
+//@   use handlerBase dirOpRows
+//@   ensures[C06] @reply-type typeis(result, *rlock) || typeis(result, *rlerror)
+//@   ensures[C04] @unbound-fid-ebadf !old(has(cs.fids, t.fid)) ==> isErr(result, linux.EBADF) && nocalls()
+//@   at File.Lock requires[C03] @forwards recv == old(cs.fids[t.fid]).file && arg0 == int(old(t.PID)) && arg1 == old(t.Type) && arg2 == old(t.Flags) && arg3 == old(t.Start) && arg4 == old(t.Length) && arg5 == old(t.Client)
+//@   ensures[C15] @backend-error-reported ncalls() > old(ncalls()) && ghost("$lasterr", error) != nil ==> isErr(result, errno(ghost("$lasterr", error)))
+
+//@ func (*tfsync).handle
+//@   use handlerBase dirOpRows
+//@   ensures[C06] @reply-type typeis(result, *rfsync) || typeis(result, *rlerror)
+//@   ensures[C04] @unbound-fid-ebadf !old(has(cs.fids, t.fid)) ==> isErr(result, linux.EBADF) && nocalls()
+//@   ensures[C04] @unopened-einval old(has(cs.fids, t.fid)) && !old(cs.fids[t.fid].opened) ==> isErr(result, linux.EINVAL) && nocalls()
+//@   at File.FSync requires[C03] @forwards recv == old(cs.fids[t.fid]).file
+//@   ensures[C15] @backend-error-reported ncalls() > old(ncalls()) && ghost("$lasterr", error) != nil ==> isErr(result, errno(ghost("$lasterr", error)))
+
+//@ func (*tauth).handle
+//@   use handlerBase dirOpRows
+//@   ensures[C04,C06] @enosys isErr(result, linux.ENOSYS) && nocalls()
+
+// ---- path tree helpers used by the handlers ------------------------------------
+//@ func (*pathNode).nameFor
+//@   requires[C15,C16] held(p.childMu) == 0
+//@   ensures[C08,C09] @current-name has(p.childRefNames, ref) && result == p.childRefNames[ref]
+//@   maypanic
+//@   panic_ensures[C15,C16] samelocks()
+
+//@ func (*pathNode).addChild
+//@   abstract
+//@   requires[C15,C16] held(p.childMu) == 0
+//@   requires[C09] safe(name)
+//@   requires[C09] InamesSafe()
+//@   ensures[C09] InamesSafe()
+//@   panic_ensures[C09] InamesSafe()
+//@   modifies mapof(p.childRefNames), mapof(p.childRefs), maps(map[*fidRef]struct{})
+//@   maypanic
+
+// markChildDeleted / renameChildTo walk the tree below the entry (unbounded
+// recursion, loops over maps being mutated): contracts assumed, see DESIGN.md.
+//@ func (*fidRef).markChildDeleted
+//@   abstract
+//@   requires[C07,C08] @entry-quiesced globalLocked(f) || (held(f.server.renameMu) >= 1 && held(f.pathNode.opMu) == -1)
+//@   requires[C09] InamesSafe()
+//@   ensures[C09] InamesSafe()
+//@   modifies type:pathNode.deleted, maps(map[string]*pathNode), maps(map[*fidRef]string), maps(map[string]map[*fidRef]struct{}), maps(map[*fidRef]struct{})
+//@ func (*fidRef).renameChildTo
+//@   abstract
+//@   requires[C07,C08] @global-lock globalLocked(f)
+//@   requires[C09] safe(newName)
+//@   requires[C09] InamesSafe()
+//@   ensures[C09] InamesSafe()
+//@   panic_ensures[C09] InamesSafe()
+//@   modifies type:pathNode.deleted, type:fidRef.parent, type:fidRef.refs, maps(map[string]*pathNode), maps(map[*fidRef]string), maps(map[string]map[*fidRef]struct{}), maps(map[*fidRef]struct{}), $n.File.Renamed, $n.File.Close, $ncalls
+//@   maypanic
+
+//@ guard fidRef.opened[C07,C16] read readLocked(r) write writeLocked(r)
+//@ guard fidRef.openFlags[C07,C16] read readLocked(r) write writeLocked(r)
+
+//@ func (*tlopen).handle
+//@   use handlerBase dirOpRows
+//@   ensures[C06] @reply-type typeis(result, *rlopen) || typeis(result, *rlerror)
+//@   ensures[C04] @unbound-fid-ebadf !old(has(cs.fids, t.fid)) ==> isErr(result, linux.EBADF) && nocalls()
+//@   ensures[C04] @already-open-einval old(has(cs.fids, t.fid)) && old(cs.fids[t.fid].opened) && !old(fenced(cs.fids[t.fid])) ==> isErr(result, linux.EINVAL) && nocalls()
+//@   ensures[C04] @unopenable-type-einval old(has(cs.fids, t.fid)) && !CanOpen(old(cs.fids[t.fid].mode)) ==> isErr(result, linux.EINVAL) && nocalls()
+//@   ensures[C04] @dir-writable-eisdir old(has(cs.fids, t.fid)) && !old(fenced(cs.fids[t.fid])) && !old(cs.fids[t.fid].opened) && FileMode.IsDir(old(cs.fids[t.fid].mode)) && OpenFlags.Mode(old(t.Flags)) != ReadOnly ==> isErr(result, linux.EISDIR) && nocalls()
+//@   ensures[C08] @fenced-refused old(has(cs.fids, t.fid)) && old(fenced(cs.fids[t.fid])) ==> isErr(result, linux.EINVAL) && nocalls()
+//@   at File.Open requires[C03] @forwards recv == old(cs.fids[t.fid]).file && arg0 == old(t.Flags)
+//@   ensures[C04] @success-marks-open typeis(result, *rlopen) ==> old(cs.fids[t.fid]).opened && old(cs.fids[t.fid]).openFlags == old(t.Flags) && ncalls("File.Open") == old(ncalls("File.Open")) + 1
+//@   ensures[C04,C15] @failure-leaves-unopened typeis(result, *rlerror) && old(has(cs.fids, t.fid)) ==> old(cs.fids[t.fid]).opened == old(cs.fids[t.fid].opened)
+//@   ensures[C15] @backend-error-reported ncalls() > old(ncalls()) && ghost("$lasterr", error) != nil ==> isErr(result, errno(ghost("$lasterr", error)))
+
+//@ func (*tlcreate).do
+//@   use handlerBase
+//@   ensures[C09,C04] @unsafe-name-rejected !safe(old(t.Name)) ==> errIs(result1, linux.EINVAL) && nocalls() && sameFids(cs)
+//@   ensures[C04] @unbound-fid safe(old(t.Name)) && !old(has(cs.fids, t.fid)) ==> errIs(result1, linux.EBADF) && nocalls() && sameFids(cs)
+//@   ensures[C04] @opened-dir-refused old(has(cs.fids, t.fid)) && old(cs.fids[t.fid].opened) ==> result1 != nil && nocalls()
+//@   ensures[C04] @not-a-dir-refused old(has(cs.fids, t.fid)) && !FileMode.IsDir(old(cs.fids[t.fid].mode)) ==> result1 != nil && nocalls()
+//@   ensures[C08] @fenced-dir-refused old(has(cs.fids, t.fid)) && old(fenced(cs.fids[t.fid])) ==> errIs(result1, linux.EINVAL) && nocalls()
+//@   ensures[C04,C15] @error-leaves-table result1 != nil ==> sameFids(cs)
+//@   at File.Create requires[C03] @forwards recv == old(cs.fids[t.fid]).file && arg0 == old(t.Name) && arg1 == old(t.OpenFlags) && arg2 == old(t.Permissions) && arg3 == uid && arg4 == old(t.GID)
+//@   ensures[C04] @rebinds-to-open-file result1 == nil ==> has(cs.fids, old(t.fid)) && cs.fids[old(t.fid)] != old(cs.fids[t.fid]) && cs.fids[old(t.fid)].opened && cs.fids[old(t.fid)].openFlags == old(t.OpenFlags) && cs.fids[old(t.fid)].mode == ModeRegular
+//@   ensures[C04] @other-fids-unchanged forall(k, fid, k != old(t.fid) ==> has(cs.fids, k) == old(has(cs.fids, k)) && cs.fids[k] == old(cs.fids[k]))
+//@   ensures[C03,C15] @error-or-result ncalls() > old(ncalls()) ==> result1 == ghost("$lasterr", error)
+//@   ensures[C05] @new-ref-holds-created-file result1 == nil ==> cs.fids[old(t.fid)].file == ghost("$ret.File", File) && cs.fids[old(t.fid)].parent == old(cs.fids[t.fid])
+//@ func (*tlcreate).handle
+//@   use handlerBase
+//@   ensures[C06] @reply-type typeis(result, *rlcreate) || typeis(result, *rlerror)
+//@   ensures[C09] @unsafe-name-einval !safe(old(t.Name)) ==> isErr(result, linux.EINVAL) && nocalls() && sameFids(cs)
+//@   ensures[C04] @unbound-fid-ebadf safe(old(t.Name)) && !old(has(cs.fids, t.fid)) ==> isErr(result, linux.EBADF) && nocalls() && sameFids(cs)
+//@   ensures[C04,C15] @error-leaves-table typeis(result, *rlerror) ==> sameFids(cs)
+//@   ensures[C15] @backend-error-reported ncalls() > old(ncalls()) && ghost("$lasterr", error) != nil ==> isErr(result, errno(ghost("$lasterr", error)))
